@@ -9,6 +9,7 @@ import (
 	"fmt"
 	"math/rand/v2"
 	"net"
+	"os"
 	"sync"
 	"time"
 
@@ -117,6 +118,9 @@ func (r *Router) SuspendFaults(off bool) {
 	r.suspended = off
 	r.mu.Unlock()
 }
+
+// traceDatagrams (environment variable VERIF_TRACE): print every datagram with the router's decision; a debugging aid.
+var traceDatagrams = os.Getenv("VERIF_TRACE") != ""
 
 // NewRouter creates a router and starts its two delivery goroutines (stop them with Close).
 func NewRouter(serverAddr net.Addr, latency time.Duration, wire *wiretap.Wire, sched Schedule) *Router {
@@ -241,6 +245,9 @@ func (r *Router) SendPacket(p simnet.Packet) error {
 	defer r.mu.Unlock()
 	if r.Blackhole[dir] {
 		act = Action{Kind: "drop"}
+	}
+	if traceDatagrams {
+		fmt.Printf("TRACE %s -> %s\n", info.Text(), act.Kind)
 	}
 	if act.Kind != "pass" {
 		r.applied++
